@@ -194,6 +194,7 @@ func DefaultIntrinsics() map[string]Intrinsic {
 	threadIntrinsics(m)
 	rtIntrinsics(m)
 	containerIntrinsics(m)
+	timeIntrinsics(m)
 	stdIntrinsics(m)
 	return m
 }
